@@ -134,16 +134,17 @@ impl CgtServer {
 
     /// Parse transactions from JSON array or CGT DSL text.
     fn parse_input(&self, input: &str) -> Result<Vec<Transaction>, McpError> {
-        let trimmed = input.trim();
-
+        // Leading whitespace only decides the format. The text is parsed as it was sent, so that
+        // the line numbers in error messages refer to the caller's input (both parsers accept
+        // surrounding blank lines and whitespace).
         // Try JSON first (starts with '[')
-        if trimmed.starts_with('[') {
-            return serde_json::from_str(trimmed)
-                .map_err(|e| Self::format_json_parse_error(e, trimmed));
+        if input.trim_start().starts_with('[') {
+            return serde_json::from_str(input)
+                .map_err(|e| Self::format_json_parse_error(e, input));
         }
 
         // Fall back to DSL parsing
-        self.parse_dsl(trimmed)
+        self.parse_dsl(input)
     }
 
     /// Format a JSON parse error with helpful context.
